@@ -146,6 +146,9 @@ func (x *Exec) staticCall(st *State, fr *Frame, ci *ssa.Call, callee *ssa.Functi
 		return true
 	}
 	forceInline := tc != nil && (contains(tc.inlines, rel) || contains(tc.inlines, name))
+	if x.tcontract != nil && (contains(x.tcontract.inlines, rel) || contains(x.tcontract.inlines, name)) {
+		forceInline = true // the target's inline list also applies inside inlined callees
+	}
 	if m, ok := x.modelCall(st, fr, ci, name, args); ok {
 		fr.vals[ci] = m
 		return true
